@@ -5,6 +5,7 @@ import (
 	"errors"
 	"fmt"
 	"io"
+	"runtime"
 	"sort"
 	"sync"
 	"sync/atomic"
@@ -47,6 +48,10 @@ type Event struct {
 	Foreign bool
 	Snap    *transport_controller.VerifLinkSnapshot
 }
+
+// Down reports whether the controller was not running (had no peer id: still
+// starting up or already shut down) when the event was applied.
+func (e Event) Down() bool { return e.Snap != nil && e.Snap.PeerID == "" }
 
 var nodeByCtrl sync.Map // *transport_controller.Controller -> *Node
 
@@ -106,9 +111,35 @@ type Node struct {
 
 var tptSerial atomic.Uint64
 
+// WorldOpts are optional callbacks into the construction of a World.
+type WorldOpts struct {
+	// PreStart is called once the bus, the peer controllers and every Node
+	// (identity, fake transport; w.Nodes is complete) exist, and before any
+	// transport controller is added to the bus: fake links can be built
+	// (Node.NewLink) and directives added (World.NewWatch) that exist before
+	// the controllers start.
+	PreStart func(w *World)
+	// InCtor is called from inside the constructor callback the real
+	// transport controller of node n invokes from its Execute (first
+	// invocation only), after the real handler was stored in n.Handler and
+	// before the constructor returns: the controller is still starting up
+	// (it has neither its transport nor its peer id yet). Handler calls may
+	// block until the controller is up, so InCtor must deliver them from
+	// separate goroutines (Node.EstAsync / Node.LostAsync) and return.
+	InCtor func(n *Node)
+}
+
 // NewWorld builds a bus with one transport controller per identity and waits
 // until every controller has its transport.
 func NewWorld(parent context.Context, locals []*keys.Identity) (*World, error) {
+	return NewWorldOpts(parent, locals, nil)
+}
+
+// NewWorldOpts is NewWorld with callbacks (see WorldOpts).
+func NewWorldOpts(parent context.Context, locals []*keys.Identity, opts *WorldOpts) (*World, error) {
+	if opts == nil {
+		opts = &WorldOpts{}
+	}
 	ctx, cancel := context.WithCancel(parent)
 	lg := logrus.New()
 	lg.SetOutput(io.Discard)
@@ -129,16 +160,26 @@ func NewWorld(parent context.Context, locals []*keys.Identity) (*World, error) {
 		w.rels = append(w.rels, rel)
 	}
 	for _, id := range locals {
-		n := &Node{W: w, Ident: id, Tpt: &Transport{UUID: tptSerial.Add(1) + 500, PeerID: id.ID}}
-		hch := make(chan transport.TransportHandler, 1)
+		w.Nodes = append(w.Nodes, &Node{W: w, Ident: id, Tpt: &Transport{UUID: tptSerial.Add(1) + 500, PeerID: id.ID}})
+	}
+	if opts.PreStart != nil {
+		opts.PreStart(w)
+	}
+	for _, n := range w.Nodes {
+		n := n
+		var first sync.Once
 		ctor := func(ctx context.Context, le *logrus.Entry, pkey crypto.PrivKey, handler transport.TransportHandler) (transport.Transport, error) {
-			select {
-			case hch <- handler:
-			default:
-			}
+			first.Do(func() {
+				// written once, before the goroutines InCtor starts and before
+				// the controller publishes its transport (GetTransport below)
+				n.Handler = handler
+				if opts.InCtor != nil {
+					opts.InCtor(n)
+				}
+			})
 			return n.Tpt, nil
 		}
-		n.Ctrl = transport_controller.NewController(le, b, controller.NewInfo("verif/g6/fake-transport", semver.MustParse("0.0.1"), "fake transport"), id.ID, false, ctor)
+		n.Ctrl = transport_controller.NewController(le, b, controller.NewInfo("verif/g6/fake-transport", semver.MustParse("0.0.1"), "fake transport"), n.Ident.ID, false, ctor)
 		nodeByCtrl.Store(n.Ctrl, n)
 		rel, err := b.AddController(ctx, n.Ctrl, nil)
 		if err != nil {
@@ -150,13 +191,10 @@ func NewWorld(parent context.Context, locals []*keys.Identity) (*World, error) {
 			w.Close()
 			return nil, err
 		}
-		select {
-		case n.Handler = <-hch:
-		default:
+		if n.Handler == nil {
 			w.Close()
 			return nil, errors.New("constructor was not called")
 		}
-		w.Nodes = append(w.Nodes, n)
 	}
 	return w, nil
 }
@@ -168,7 +206,9 @@ func (w *World) Close() {
 		r()
 	}
 	for _, n := range w.Nodes {
-		nodeByCtrl.Delete(n.Ctrl)
+		if n.Ctrl != nil {
+			nodeByCtrl.Delete(n.Ctrl)
+		}
 	}
 }
 
@@ -180,6 +220,36 @@ func (n *Node) Est(l *Link) { n.submitted.Add(1); n.Handler.HandleLinkEstablishe
 
 // Lost delivers HandleLinkLost(l) to the real handler.
 func (n *Node) Lost(l *Link) { n.submitted.Add(1); n.Handler.HandleLinkLost(l) }
+
+// EstAsync delivers HandleLinkEstablished(l) from a new goroutine (the call is
+// counted as submitted before the goroutine starts); yields = number of
+// runtime.Gosched calls the goroutine makes first. done, if not nil, is
+// signalled when the call returned.
+func (n *Node) EstAsync(l *Link, yields int, done *sync.WaitGroup) {
+	n.submitted.Add(1)
+	n.async(func() { n.Handler.HandleLinkEstablished(l) }, yields, done)
+}
+
+// LostAsync is EstAsync for HandleLinkLost.
+func (n *Node) LostAsync(l *Link, yields int, done *sync.WaitGroup) {
+	n.submitted.Add(1)
+	n.async(func() { n.Handler.HandleLinkLost(l) }, yields, done)
+}
+
+func (n *Node) async(f func(), yields int, done *sync.WaitGroup) {
+	if done != nil {
+		done.Add(1)
+	}
+	go func() {
+		if done != nil {
+			defer done.Done()
+		}
+		for i := 0; i < yields; i++ {
+			runtime.Gosched()
+		}
+		f()
+	}()
+}
 
 // Seq returns the number of hook events applied so far.
 func (n *Node) Seq() int { return int(n.applied.Load()) }
